@@ -461,6 +461,22 @@ def t_sequential(n):
 					sh.violation('fault-swallowed', dict(mode='sequential', n=n, order=list(range(n)), workers=0, pre_completed=0, fault=fault, faultkind=fk), 'raises', repr(r))
 				except Exception:
 					sh.count('faults_raised')
+		# no files at all: an empty collection, in every mode, with and without an explicit worker count
+		for kw in (dict(concurrency=None), dict(concurrency='threads'), dict(concurrency='threads', max_workers=2), dict(concurrency='processes', max_workers=1),
+		           dict(concurrency='processes'), dict(executor=ThreadPoolExecutor(max_workers=1))):
+			sh.evals += 1
+			desc = {k: (v if not isinstance(v, Executor) else 'ThreadPoolExecutor(1)') for k, v in kw.items()}
+			try:
+				r = calc_file_signatures(ks, [], **kw)
+				if not (isinstance(r, SignatureList) and len(r) == 0 and r.kmerspec == ks):
+					sh.violation('wrong-result', dict(mode='empty-list', n=0, order=[], workers=0, pre_completed=0, fault=None, faultkind=None, kw=desc), 'empty SignatureList', repr(r))
+				else:
+					sh.count('empty_file_lists')
+			except Exception as e:
+				sh.violation('unexpected-exception', dict(mode='empty-list', n=0, order=[], workers=0, pre_completed=0, fault=None, faultkind=None, kw=desc), 'empty SignatureList', repr(e))
+			finally:
+				if 'executor' in kw:
+					kw['executor'].shutdown()
 		for bad in ('thread', 'x'):
 			try:
 				calc_file_signatures(ks, files[:1], concurrency=bad)
@@ -738,6 +754,8 @@ def replay(case, kind=None):
 		return [v for v in vs if v['case'].get('history') == case['history'] and v['case'].get('k') == case.get('k')][:1]
 	if case['mode'] == 'bodies':
 		return [v for v in t_bodies(case['pair'], 2).violations if v['case'].get('schedule') == case['schedule']][:1] or t_bodies(case['pair'], 2).violations[:1] and []
+	if case['mode'] == 'empty-list':
+		return [v for v in t_sequential(4).violations if v['case'].get('mode') == 'empty-list' and v['case'].get('kw') == case.get('kw')][:1]
 	if case['mode'] == 'sequential' or case['mode'] not in ('threads', 'processes', 'executor'):
 		return t_sequential(case['n']).violations
 	with fixtures.workdir('c13r') as d:
